@@ -19,16 +19,21 @@ Variable act : nat -> value -> aret.
 Variable lineat : nat -> nat.
 
 Definition Quiet (st : gstate) : Prop := raised st = [].
+(* engine_made: what the engine produces by itself - never a foreign exception, except the two markers of the model:
+   Foreign 0 = a leaf the engine model does not cover (Lib/Matchers.v), Foreign 1 = call of an undefined rule (FailedRef) *)
+Definition engine_made (k : fatal) : Prop := match k with Foreign x => x = 0 \/ x = 1 | _ => True end.
 Definition Reaches (r : res) (st : gstate) : Prop :=
-  raised st = [] \/ exists x, raised st = [x] /\ r = Fatal x.
+  (raised st = [] /\ forall k, r = Fatal k -> engine_made k) \/ exists x, raised st = [x] /\ r = Fatal x.
 Definition ReachesR (r : rres) (st : gstate) : Prop :=
-  raised st = [] \/ exists x, raised st = [x] /\ r = RFatal x.
+  (raised st = [] /\ forall k, r = RFatal k -> engine_made k) \/ exists x, raised st = [x] /\ r = RFatal x.
 
-Lemma quiet_reaches r st : Quiet st -> Reaches r st.
-Proof. intros Q. left. exact Q. Qed.
+Lemma quiet_reaches r st : Quiet st -> builtin r -> Reaches r st.
+Proof.
+  intros Q Bi. left. split; [exact Q|]. intros k ->. destruct k as [| |x]; cbn in *; [exact I|exact I|left; exact Bi].
+Qed.
 
 Lemma reaches_quiet r st : Reaches r st -> nonfatal r -> Quiet st.
-Proof. intros [Q|[x [_ ->]]] N; [exact Q|destruct N]. Qed.
+Proof. intros [[Q _]|[x [_ ->]]] N; [exact Q|destruct N]. Qed.
 
 Lemma cut_quiet f st : Quiet st -> Quiet (f_on_cut ec f st).
 Proof. unfold Quiet, f_on_cut. destruct (prune_on_cut ec); intros Q; exact Q. Qed.
@@ -48,41 +53,50 @@ Proof.
   split; [reflexivity|]. exists e. split; reflexivity.
 Qed.
 
+Lemma quietR rr st : Quiet st -> (forall k, rr = RFatal k -> engine_made k) -> ReachesR rr st.
+Proof. intros Q H. left. split; assumption. Qed.
+
+Ltac nonfatalR := let k := fresh "k" in let H := fresh "H" in intros k H; discriminate H.
+
 Lemma rule_call_reaches (ev : @ev_t gstate) : TrQ ev -> forall rl r k st rr st',
   Quiet st -> rule_call upper ic ec act lineat ev rl r k st = (rr, st') -> ReachesR rr st'.
 Proof.
   intros T rl r k st rr st' Q E. unfold rule_call in E.
-  destruct (lookup (memos st) k) as [[node np| |]|]; try (inversion E; subst; left; exact Q).
+  destruct (lookup (memos st) k) as [[node np| |]|]; try (inversion E; subst; apply quietR; [exact Q|nonfatalR]).
   match type of E with context [ev (r_exp rl) ?fr ?s1] => destruct (ev (r_exp rl) fr s1) as [[v fb|c|x] st2] eqn:Eb;
     assert (Q1 : Quiet s1) by (unfold Quiet; destruct (left_recursion ec); [rewrite memoize_raised|]; exact Q) end.
   - assert (Q2 : Quiet st2) by (eapply (tr_ok Quiet Reaches reaches_quiet ev T); eassumption).
     destruct (post_body upper ic ec act lineat rl r (fst k) fb) as [[node np| |x] ran] eqn:Pb.
-    + inversion E; subst. left. rewrite memoize_raised. destruct ran; exact Q2.
-    + inversion E; subst. left. rewrite memoize_raised. destruct ran; exact Q2.
+    + inversion E; subst. apply quietR; [|nonfatalR]. unfold Quiet. rewrite memoize_raised. destruct ran; exact Q2.
+    + inversion E; subst. apply quietR; [|nonfatalR]. unfold Quiet. rewrite memoize_raised. destruct ran; exact Q2.
     + destruct (post_body_fatal _ _ _ _ _ _ Pb) as [-> _]. inversion E; subst.
       right. exists x. split; [|reflexivity]. cbn. unfold Quiet in Q2. rewrite Q2. reflexivity.
-  - inversion E; subst. left. rewrite memoize_raised. eapply (tr_fail Quiet Reaches reaches_quiet ev T); eassumption.
-  - inversion E; subst. destruct (tr_fatal Quiet Reaches ev T _ _ _ _ _ Q1 Eb) as [Q2|[y [Ry Hy]]].
-    + left. exact Q2.
+  - inversion E; subst. apply quietR; [|nonfatalR]. unfold Quiet. rewrite memoize_raised.
+    eapply (tr_fail Quiet Reaches reaches_quiet ev T); eassumption.
+  - inversion E; subst. destruct (tr_fatal Quiet Reaches ev T _ _ _ _ _ Q1 Eb) as [[Q2 M]|[y [Ry Hy]]].
+    + apply quietR; [exact Q2|]. intros k0 H. inversion H; subst. apply M. reflexivity.
     + right. exists y. inversion Hy; subst. split; [exact Ry|reflexivity].
 Qed.
+
+Lemma reachesR_quiet rr st : ReachesR rr st -> (forall x, rr <> RFatal x) -> Quiet st.
+Proof. intros [[Q _]|[y [_ Hy]]] N; [exact Q|exfalso; exact (N _ Hy)]. Qed.
 
 Lemma grow_reaches (ev : @ev_t gstate) : TrQ ev -> forall n rl r k lastpos best st rr st',
   Quiet st -> (forall x, best <> RFatal x) ->
   grow upper ic ec act lineat n ev rl r k lastpos best st = (rr, st') -> ReachesR rr st'.
 Proof.
   intros T n. induction n as [|n IH]; intros rl r k lastpos best st rr st' Q HB E; cbn [grow] in E.
-  - inversion E; subst. left. exact Q.
+  - inversion E; subst. apply quietR; [exact Q|]. intros k0 H. inversion H; subst. exact I.
   - match type of E with context [rule_call upper ic ec act lineat ev rl r k ?s0] =>
       destruct (rule_call upper ic ec act lineat ev rl r k s0) as [[node np| |x] st1] eqn:Er;
       assert (Q0 : Quiet s0) by exact Q;
       pose proof (rule_call_reaches ev T _ _ _ _ _ _ Q0 Er) as R1 end.
-    + assert (Q1 : Quiet st1) by (destruct R1 as [Q1|[y [_ Hy]]]; [exact Q1|discriminate]).
+    + assert (Q1 : Quiet st1) by (apply (reachesR_quiet _ _ R1); intros y; discriminate).
       destruct (match lastpos with Some lp => Nat.ltb lp np | None => true end).
       * eapply (fun Q HB => IH _ _ _ _ _ _ _ _ Q HB E); [exact Q1|intros y; discriminate].
-      * inversion E; subst. left. exact Q1.
-    + assert (Q1 : Quiet st1) by (destruct R1 as [Q1|[y [_ Hy]]]; [exact Q1|discriminate]).
-      inversion E; subst. left. exact Q1.
+      * inversion E; subst. apply quietR; [exact Q1|]. intros k0 H. exfalso. exact (HB _ H).
+    + assert (Q1 : Quiet st1) by (apply (reachesR_quiet _ _ R1); intros y; discriminate).
+      inversion E; subst. apply quietR; [exact Q1|]. intros k0 H. exfalso. exact (HB _ H).
     + inversion E; subst. exact R1.
 Qed.
 
@@ -90,21 +104,24 @@ Lemma fcall_reaches n (ev : @ev_t gstate) : TrQ ev -> forall r f st res st',
   Quiet st -> fcall text re_at upper ic rules ec act lineat n ev r f st = (res, st') -> Reaches res st'.
 Proof.
   intros T r f st res st' Q E. unfold fcall in E.
-  destruct (get_rule rules r) as [rl|]; [|inversion E; subst; left; exact Q].
-  destruct (if r_tokn rl then Some (pos f) else next_token text re_at ic (pos f)) as [p|]; [|inversion E; subst; left; exact Q].
+  destruct (get_rule rules r) as [rl|]; [|inversion E; subst; left; split; [exact Q|intros k H; inversion H; subst; right; reflexivity]].
+  destruct (if r_tokn rl then Some (pos f) else next_token text re_at ic (pos f)) as [p|];
+    [|inversion E; subst; left; split; [exact Q|intros k H; inversion H; subst; exact I]].
   assert (RR : forall rr st1, (if r_lrec rl then recursive_call upper ic ec act lineat n ev rl r (p, r) st
                                else rule_call upper ic ec act lineat ev rl r (p, r) st) = (rr, st1) -> ReachesR rr st1).
   { intros rr st1 Ec. destruct (r_lrec rl).
-    - unfold recursive_call in Ec. destruct (negb (left_recursion ec)); [inversion Ec; subst; left; exact Q|].
-      destruct (lookup (results st) (p, r)) as [[node np| |]|]; try (inversion Ec; subst; left; exact Q).
+    - unfold recursive_call in Ec. destruct (negb (left_recursion ec)); [inversion Ec; subst; apply quietR; [exact Q|nonfatalR]|].
+      destruct (lookup (results st) (p, r)) as [[node np| |]|]; try (inversion Ec; subst; apply quietR; [exact Q|nonfatalR]).
       eapply (fun Q HB => grow_reaches ev T _ _ _ _ _ _ _ _ _ Q HB Ec); [exact Q|intros y; discriminate].
     - eapply rule_call_reaches; eassumption. }
   destruct (if r_lrec rl then recursive_call upper ic ec act lineat n ev rl r (p, r) st
             else rule_call upper ic ec act lineat ev rl r (p, r) st) as [[node np| |x] st1] eqn:Ec;
     specialize (RR _ _ eq_refl); inversion E; subst.
-  - destruct RR as [Q1|[y [_ Hy]]]; [left; exact Q1|discriminate].
-  - destruct RR as [Q1|[y [_ Hy]]]; [left; exact Q1|discriminate].
-  - destruct RR as [Q1|[y [Ry Hy]]]; [left; exact Q1|]. inversion Hy; subst. right. exists y. split; [exact Ry|reflexivity].
+  - left. split; [apply (reachesR_quiet _ _ RR); intros y; discriminate|intros k H; discriminate H].
+  - left. split; [apply (reachesR_quiet _ _ RR); intros y; discriminate|intros k H; discriminate H].
+  - destruct RR as [[Q1 M]|[y [Ry Hy]]].
+    + left. split; [exact Q1|]. intros k H. inversion H; subst. apply M. reflexivity.
+    + inversion Hy; subst. right. exists y. split; [exact Ry|reflexivity].
 Qed.
 
 Theorem feval_reaches n : TrQ (feval text re_at isalnum isalpha lower upper ic unsafe rules ec act lineat n).
@@ -121,7 +138,20 @@ Theorem raise_reaches_caller n start r st :
   parse_with text re_at isalnum isalpha lower upper ic unsafe rules ec act lineat n start = (r, st) ->
   raised st = [] \/ exists x, raised st = [x] /\ r = Fatal x.
 Proof.
-  unfold parse_with. intros E. eapply (feval_reaches n); [|exact E]. reflexivity.
+  unfold parse_with. intros E. assert (Q0 : Quiet gstate0) by reflexivity.
+  destruct (feval_reaches n _ _ _ _ _ Q0 E) as [[Q _]|R]; [left; exact Q|right; exact R].
+Qed.
+
+(* and the engine raises nothing foreign by itself: when no action raised, a fatal result is fuel exhaustion, the
+   empty-whitespace hang marker, an unmodelled leaf (Foreign 0) or the call of an undefined rule (Foreign 1 = FailedRef) *)
+Theorem engine_raises_nothing_foreign n start k st :
+  parse_with text re_at isalnum isalpha lower upper ic unsafe rules ec act lineat n start = (Fatal k, st) ->
+  raised st = [] -> engine_made k.
+Proof.
+  unfold parse_with. intros E Q. assert (Q0 : Quiet gstate0) by reflexivity.
+  destruct (feval_reaches n _ _ _ _ _ Q0 E) as [[_ M]|[x [R _]]].
+  - apply M. reflexivity.
+  - rewrite Q in R. discriminate.
 Qed.
 
 (* the ghost log is written exactly there: a raising action ends the invocation with that exception, logs it, stores nothing *)
